@@ -118,6 +118,8 @@ structure Chain where
   iter : Nat := 0                         -- number of the reactor iteration in progress (0 = before the loop)
   observers : List Nat := []              -- the global log observers (ids)
   realStops : Nat := 0                    -- calls of the genuine `reactor.stop`
+  over : Bool := false                    -- `Spinner.run` has left `reactor.run()`: the callbacks it hung on the chain's final
+                                          -- Deferred (`_got_success`, `_stop_reactor`) belong to a run that is over and do nothing
 
 abbrev W := World CAct Chain
 
@@ -175,7 +177,7 @@ def Chain.finish (c : Chain) : Chain :=
 and the spinner's callbacks run -/
 def finishChain (w : W) : W :=
   let w := updU Chain.finish w
-  deliver (.value (if w.u.fails then 0 else 1)) w
+  if w.u.over then w else deliver (.value (if w.u.fails then 0 else 1)) w
 
 def Chain.noteCleanup (r : Option Exc) (c : Chain) : Chain :=
   match r with
@@ -371,9 +373,11 @@ fixtures -/
 def prepare (p : Prog) : W :=
   schedStops p.stops { u := { observers := (duringObs p).1 } }
 
-/-- after `reactor.run()` returned (`finally:` of `Spinner.run`) -/
+/-- after `reactor.run()` returned (`finally:` of `Spinner.run`): the run is over - its callbacks are dead, `_spinning` is
+cleared (an interrupted run ends without `_stop_reactor`) -, `reactor.stop` is un-patched -/
 def afterSpin (p : Prog) : W :=
-  { spinPhase p (prepare p) with running := false, stopPatched := false }
+  let w := spinPhase p (prepare p)
+  { w with running := false, stopPatched := false, sp := { w.sp with spinning := false }, u := { w.u with over := true } }
 
 /-- `_clean`'s obligatory iterations (`reactor.iterate(0)` twice for broken Twisted); the result of `Spinner.run`
 has been determined before (`try: return self._get_result() finally: self._clean()`) -/
